@@ -12,6 +12,7 @@ import (
 	"os"
 	"path/filepath"
 	"regexp"
+	"sort"
 	"strings"
 )
 
@@ -227,6 +228,67 @@ func runPatchSeeds(p *Property, dir, verif string) []SeedResult {
 			out = append(out, SeedResult{ps.Name, "caught", strings.Join(fired, "; ")})
 		} else {
 			out = append(out, SeedResult{ps.Name, "missed", "no violation reported"})
+		}
+	}
+	return out
+}
+
+// ---- behaviour-preserving patches (/verif/benign): no rule may fire or become undecided ----------------
+
+func runBenignPatches(p *Property, dir, verif string) []SeedResult {
+	var out []SeedResult
+	files, _ := filepath.Glob(filepath.Join(verif, "benign", "*", "patch.diff"))
+	sort.Strings(files)
+	// reports that exist on the unpatched tree (recorded known findings) do not count
+	old := map[string]bool{}
+	if base, err := Load(LoadOpts{Dir: dir}); err == nil {
+		bc := NewCtx(p.ID, base)
+		p.Run(bc)
+		for _, o := range bc.Obs {
+			if o.Status == Violated {
+				old[o.Rule+" "+o.Key] = true
+			}
+		}
+	}
+	for _, pf := range files {
+		name := "benign:" + filepath.Base(filepath.Dir(pf))
+		tmp, err := patchedCopy(dir, pf)
+		if err != nil {
+			out = append(out, SeedResult{name, "skipped", "patch does not apply to the current tree"})
+			continue
+		}
+		w, err := Load(LoadOpts{Dir: tmp})
+		if err != nil {
+			os.RemoveAll(tmp)
+			out = append(out, SeedResult{name, "nocompile", err.Error()})
+			continue
+		}
+		c := NewCtx(p.ID, w)
+		func() {
+			defer func() {
+				if r := recover(); r != nil {
+					c.Undecided("internal", "panic", "checker panicked: %v", r)
+				}
+			}()
+			p.Run(c)
+		}()
+		os.RemoveAll(tmp)
+		var fired []string
+		for _, o := range c.Obs {
+			if o.Status == Violated && !old[o.Rule+" "+o.Key] {
+				fired = append(fired, o.Rule+" "+o.Key)
+			}
+			if o.Status == Undecided {
+				fired = append(fired, "UNDECIDED "+o.Rule+" "+o.Key)
+			}
+		}
+		if len(fired) == 0 {
+			out = append(out, SeedResult{name, "quiet", "behaviour-preserving patch raised no report"})
+		} else {
+			if len(fired) > 4 {
+				fired = append(fired[:4], "...")
+			}
+			out = append(out, SeedResult{name, "false-alarm", strings.Join(fired, "; ")})
 		}
 	}
 	return out
